@@ -272,6 +272,25 @@ def run(ctx: Ctx) -> None:
     if not len_checkers:
         rep.bad("C05.R6", outer.qname, "a size guard raising SEQUENCE_TOO_LONG exists", outer.loc(), ["no nested function raises DDSException(..., SEQUENCE_TOO_LONG)"], "no-guard",
                 what="no size guard with a coded error")
+    # the size limit the guard compares with is a validated option value
+    rep.rule("C05.R9", "set_option stores a value only after its validation completed normally (the size guard compares len() with hash.max_sequence_size: a "
+                       "refused value that was stored anyway turns every later hash into a low-level TypeError or a spurious SEQUENCE_TOO_LONG)")
+    so = prog.funcs.get("dds._config.set_option")
+    if so is None:
+        raise AnchorError("dds._config.set_option not found")
+    socfg = cfg_of(so)
+    vals = [c for c in so.own_nodes() if isinstance(c, ast.Call) and isinstance(c.func, ast.Attribute) and c.func.attr == "validate"]
+    stores9 = [st for st in so.own_nodes() if isinstance(st, ast.Assign) and any(isinstance(t, ast.Subscript) for t in st.targets)]
+    n9 = 0
+    for st in stores9:
+        n9 += 1
+        desc = f"`{unparse(st, 40)}` runs only after the option's validation completed"
+        w = dominated(ctx, so, st, [d for c in vals for d in done_nodes(socfg, c)]) if vals else [f"{so.loc()}: no validate(..) call in set_option"]
+        if w is None:
+            rep.ok("C05.R9", so.qname, desc, so.loc(st))
+        else:
+            rep.bad("C05.R9", so.qname, desc, so.loc(st), w, stmt_key(st), what="an option value is stored before (or without) being validated")
+    rep.floor("C05.R9", n9, 1)
     rep.rule("C05.R8", "the digest helpers hash their argument itself (an encode at most between the parameter and hashlib)")
     n8 = algo_preimage_rule(ctx, "C05.R8")
     rep.floor("C05.R8", n8, 2)
